@@ -373,6 +373,7 @@ func runC29(ctx *ev.Ctx, c c29Case) {
 		gnum = 1
 	}
 	e := newEnv(ad, 1000+ad.router, c.EvmID, c.Period, 1, crypto.Keccak256([]byte("ccmc"))[:20], c.Epoch)
+	defer e.w.Store.Close() // releases the store's background goroutines and buffers
 	var m *chainModel
 	var err error
 	groot := crypto.Keccak256Hash([]byte("groot"))
